@@ -37,6 +37,38 @@ def snippets():
     add('field-after-dummy-in-first-case', [F('k5', 'char'), SW('k5', CASE('1', D('char', '1')), CASE('2', F('z5', 'char'))), F('r5', 'char')])
     add('field-after-dummy-in-last-case', [F('k5', 'char'), SW('k5', CASE('1', F('z5', 'char')), CASE('2', D('char', '1'))), F('r5', 'char')])
     add('field-after-dummy-in-middle-case', [F('k5', 'char'), SW('k5', CASE('1'), CASE('2', D('short', '1')), CASE('3')), D('char', '2')])
+    # --- round-2 additions: one snippet per (check, instruction kind) pair of the generator
+    add('length-name-redefined-by-field', [L('ln', 'char'), F('ln', 'short'), F('s9', 'string', length='ln')])
+    add('length-name-redefined-by-array', [L('ln', 'char'), A('ln', 'char', length='2')])
+    add('length-name-redefined-by-length', [L('ln', 'char'), L('ln', 'short')])
+    add('array-name-redefined-by-array', [A('aa', 'char', length='1'), A('aa', 'short', length='1')])
+    add('array-name-redefined-by-field', [A('aa', 'char', length='1'), F('aa', 'char')])
+    add('required-field-in-case-after-outer-optional', [F('k6', 'char'), F('o6', 'char', optional='true'), SW('k6', CASE('1', F('r6', 'char')))])
+    add('required-array-in-case-after-outer-optional', [F('k6', 'char'), F('o6', 'char', optional='true'), SW('k6', CASE('1', A('r6', 'char', length='1')))])
+    add('required-length-in-default-case-after-outer-optional', [F('k6', 'char'), A('o6', 'char', optional='true'), SW('k6', CASE('1'), CASE(None, L('r6', 'char'), F('s6', 'string', length='r6', optional='true'), default=True))])
+    add('hardcoded-signed-int-named', [F('hn', 'char', '-5')])
+    add('hardcoded-plus-int-named', [F('hn', 'short', '+3')])
+    add('hardcoded-underscore-int-named', [F('hn', 'short', '1_0')])
+    add('hardcoded-signed-int-unnamed', [F(None, 'char', '-5')])
+    add('hardcoded-underscore-int-dummy', [D('short', '1_0')])
+    add('hardcoded-bool-capitalised', [F('hb', 'bool', 'True')])
+    add('array-after-dummy', [D('char', '1'), A('x1', 'char', length='1')])
+    add('length-after-dummy', [D('char', '1'), L('x1', 'char'), F('x2', 'string', length='x1')])
+    add('chunked-after-dummy', [D('char', '1'), CH(F('x1', 'string'))], True)
+    add('unbounded-struct-element', [A('us2', 'HostUnbounded', length='2')])
+    add('unbounded-struct-element-rest', [A('us3', 'HostUnbounded')])
+    add('length-field-struct', [L('lsx', 'HostInner')])
+    add('length-field-blob', [L('lbx', 'blob')])
+    add('length-field-unknown-type', [L('lux', 'NoSuchType')])
+    add('length-field-referenced-twice-arrays', [L('ln', 'char'), A('a1', 'char', length='ln'), A('a2', 'short', length='ln')])
+    add('length-field-referenced-twice-field-array', [L('ln', 'char'), F('s1', 'string', length='ln'), A('a2', 'short', length='ln')])
+    add('switch-on-blob', [F('sq', 'blob'), SW('sq', CASE('1'))])
+    add('switch-on-length-of-case', [F('k7', 'char'), SW('k7', CASE('1', L('n7', 'char'), F('s7', 'string', length='n7'))), F('t7', 'string', length='n7')])
+    add('length-on-enum', [F('ln4', 'HostKind', length='1')])
+    add('length-on-blob', [F('ln5', 'blob', length='2')])
+    add('array-length-on-unknown', [A('ax', 'char', length='nolen2')])
+    add('case-enum-value-on-int-field', [F('k8', 'char'), SW('k8', CASE('A'))])
+    add('second-default-first-in-nested-switch', [F('k8', 'char'), SW('k8', CASE('1', F('j8', 'char'), SW('j8', CASE(None, default=True))))])
     add('unnamed-without-value', [F(None, 'char')])
     add('unnamed-optional', [F(None, 'char', '1', optional='true')])
     add('dummy-without-value', [{'tag': 'dummy', 'attrs': {'type': 'char'}, 'text': None}])
@@ -102,6 +134,7 @@ def hosts(snip, chunked_ok):
 def with_host(tree, body, where, as_packet=False):
     t = copy.deepcopy(tree)
     t['']['structs'].append({'name': 'HostInner', 'body': [F('q', 'char')]})
+    t['']['structs'].append({'name': 'HostUnbounded', 'body': [F('q', 'char'), F('rest', 'string')]})
     t['']['enums'].append({'name': 'HostKind', 'type': 'char', 'values': [('A', '1'), ('B', '2')]})
     if as_packet:
         t[where]['packets'].append({'family': 'Welcome', 'action': 'Reply' if where == 'net/client' else 'Request', 'body': copy.deepcopy(body)})
@@ -243,5 +276,4 @@ def run(tier):
 
 
 def replay(path):
-    print("replay: the replay file holds the mutated specification XML; re-run `./bin/check C17 quick`")
-    return 0
+    return gen_replay(path)
